@@ -62,7 +62,7 @@ def gen_cases(tier, seed):
                     sched = base[:pos] + [3] * len(killer) * 3 + base[pos:]
                     add(mode, progs, sched + drain(progs), "systematic-" + cause, pos > 0)
     # transport failure at byte offsets inside a burst (header byte 0..6, payload middle)
-    for off in (1, 3, 6, 7, 8, 9, 12, 40, 900):
+    for off in (1, 3, 6, 7, 8, 9, 12, 40, 900, 1010, 1040, 1075, 1100, 1130):   # every burst is >= 1135 bytes (1001+ , 67, 67)
         for mode in ("plain", "start"):
             for kinds in (("writer", "reader"), ("opener", "writer")):
                 progs = [[], worker(r, 1, kinds[0]), worker(r, 2, kinds[1]), ["FAIL:%d" % off, "B0", "W:2:77:ffff"]]
